@@ -117,51 +117,7 @@ func runC19(c *Ctx) {
 		R.Ob("(*Conn).init/textproto reads through the limiter", c.P.Pos(f.Pos()), okReader, "the reader given to textproto.NewConn is not the line limiter")
 	}
 
-	R.Rule("R-linelimit-threshold", "E6 thresholds", "lineLimitReader.Read: +1 per octet, reset to 0 only on LF, refusal exactly when count > LineLimit, bypass only for LineLimit == 0", 7)
-	if f := c.A.Func("(*lineLimitReader).Read"); f != nil {
-		var loop *loopInfo
-		for _, li := range findLoops(f) {
-			loop = li
-		}
-		if loop == nil || loop.body == nil {
-			R.Ob("(*lineLimitReader).Read/byte loop", c.P.Pos(f.Pos()), false, "no loop over the octets read")
-		} else {
-			res := CountPathsOpt(f, CountOpts{Start: loop.body, NoReturn: true, ExitEdge: func(from, to *ssa.BasicBlock) bool { return to == loop.header },
-				Count: func(in ssa.Instruction) (int, int) {
-					if labelHas(c.stdLabels(in), "st:lineLimitReader.curLineLength=@(lineLimitReader.curLineLength + 1)") {
-						return 1, 1
-					}
-					return 0, 0
-				}})
-			R.Ob("(*lineLimitReader).Read/every octet counted once", c.P.Pos(f.Pos()), res.Min == 1 && res.Max == 1, fmt.Sprintf("an iteration that continues adds 1 to the count %d..%d times", res.Min, res.Max))
-			// the loop ranges over exactly the octets read
-			okRange := false
-			allInstrs(f, func(in ssa.Instruction) {
-				if sl, ok := in.(*ssa.Slice); ok && describe(sl.X) == "param1" && sl.High != nil && describe(sl.High) == "invoke:Reader.Read#0" && sliceFromZero(sl) {
-					okRange = true
-				}
-			})
-			R.Ob("(*lineLimitReader).Read/loop covers b[:n]", c.P.Pos(f.Pos()), okRange, "the counting loop does not range over exactly the octets returned by the underlying Read")
-		}
-		for _, st := range s.Find(f, "st:lineLimitReader.curLineLength=0") {
-			c.obFactMatch("reset only on LF", st, `== 10$`, "line length reset on something other than LF")
-		}
-		nErr := 0
-		allInstrs(f, func(in ssa.Instruction) {
-			r, ok := in.(*ssa.Return)
-			if !ok || len(r.Results) != 2 {
-				return
-			}
-			if describe(r.Results[1]) == "ErrTooLongLine" {
-				nErr++
-				c.obUnreach("ErrTooLongLine", in, `lineLimitReader.curLineLength <= lineLimitReader.LineLimit`)
-				c.obFactMatch("refusal is strict >", in, `^lineLimitReader\.curLineLength > lineLimitReader\.LineLimit$`, "refusal not guarded by count > limit")
-			} else if isNilConst(r.Results[1]) && !reachableThroughLoop(f, in) {
-				c.obUnreach("uncounted return", in, `lineLimitReader.LineLimit != 0`)
-			}
-		})
-		R.Ob("(*lineLimitReader).Read/refuses in the loop and on entry", c.P.Pos(f.Pos()), nErr == 2, fmt.Sprintf("%d refusal sites", nErr))
-	}
+	ruleLineLimitCounting(c)
 	ruleLimiterBypass(c)
 	R.Rule("R-linelimit-restored", "E2 must-pass-through", "whoever lifts the line limit (LineLimit=0) restores it from MaxLineLength on every path before returning", 1)
 	nLift := 0
@@ -553,4 +509,82 @@ func boolInt(b bool) int {
 		return 1
 	}
 	return 0
+}
+
+// ruleLineLimitCounting (C19, C01): how lineLimitReader.Read counts. For C01 it is the reason why the limiter that
+// sits under the DATA reader cannot make the delivered octets depend on segmentation.
+func ruleLineLimitCounting(c *Ctx) {
+	R := c.R
+	_, s := c.Std()
+	R.Rule("R-linelimit-threshold", "E6 thresholds", "lineLimitReader.Read: +1 per octet, reset to 0 only on LF, refusal exactly when count > LineLimit, bypass only for LineLimit == 0", 7)
+	if f := c.A.Func("(*lineLimitReader).Read"); f != nil {
+		var loop *loopInfo
+		for _, li := range findLoops(f) {
+			loop = li
+		}
+		if loop == nil || loop.body == nil {
+			R.Ob("(*lineLimitReader).Read/byte loop", c.P.Pos(f.Pos()), false, "no loop over the octets read")
+		} else {
+			res := CountPathsOpt(f, CountOpts{Start: loop.body, NoReturn: true, ExitEdge: func(from, to *ssa.BasicBlock) bool { return to == loop.header },
+				Count: func(in ssa.Instruction) (int, int) {
+					if labelHas(c.stdLabels(in), "st:lineLimitReader.curLineLength=@(lineLimitReader.curLineLength + 1)") {
+						return 1, 1
+					}
+					return 0, 0
+				}})
+			R.Ob("(*lineLimitReader).Read/every octet counted once", c.P.Pos(f.Pos()), res.Min == 1 && res.Max == 1, fmt.Sprintf("an iteration that continues adds 1 to the count %d..%d times", res.Min, res.Max))
+			// the loop ranges over exactly the octets read
+			okRange := false
+			allInstrs(f, func(in ssa.Instruction) {
+				if sl, ok := in.(*ssa.Slice); ok && describe(sl.X) == "param1" && sl.High != nil && describe(sl.High) == "invoke:Reader.Read#0" && sliceFromZero(sl) {
+					okRange = true
+				}
+			})
+			R.Ob("(*lineLimitReader).Read/loop covers b[:n]", c.P.Pos(f.Pos()), okRange, "the counting loop does not range over exactly the octets returned by the underlying Read")
+		}
+		for _, st := range s.Find(f, "st:lineLimitReader.curLineLength=0") {
+			c.obFactMatch("reset only on LF", st, `== 10$`, "line length reset on something other than LF")
+		}
+		// ... and on EVERY LF, whatever precedes it in this or an earlier segment (the decision may only look at
+		// the octet itself: anything else makes the count depend on how the stream is cut into reads)
+		if loop != nil && loop.body != nil {
+			ff := c.F.Analyze(f)
+			elem := ""
+			for _, st := range s.Find(f, "st:lineLimitReader.curLineLength=0") {
+				for a := range ff.At(st) {
+					if strings.HasSuffix(a, " == 10") {
+						elem = strings.TrimSuffix(a, " == 10")
+					}
+				}
+			}
+			if elem == "" {
+				R.Ob("(*lineLimitReader).Read/every LF resets the count", c.P.Pos(f.Pos()), false, "no reset guarded by a comparison of the octet with LF")
+			} else {
+				res := CountPathsOpt(f, CountOpts{Start: loop.body, NoReturn: true, SkipEdge: c.F.SkipUnder(elem + " == 10"),
+					ExitEdge: func(from, to *ssa.BasicBlock) bool { return to == loop.header },
+					Count: func(in ssa.Instruction) (int, int) {
+						if labelHas(c.stdLabels(in), "st:lineLimitReader.curLineLength=0") {
+							return 1, 1
+						}
+						return 0, 0
+					}})
+				R.Ob("(*lineLimitReader).Read/every LF resets the count", c.P.Pos(f.Pos()), res.Min >= 1, "an iteration whose octet is LF can continue without resetting the line length: whether a line is refused then depends on something other than its own length (e.g. on where the stream was cut into reads)")
+			}
+		}
+		nErr := 0
+		allInstrs(f, func(in ssa.Instruction) {
+			r, ok := in.(*ssa.Return)
+			if !ok || len(r.Results) != 2 {
+				return
+			}
+			if describe(r.Results[1]) == "ErrTooLongLine" {
+				nErr++
+				c.obUnreach("ErrTooLongLine", in, `lineLimitReader.curLineLength <= lineLimitReader.LineLimit`)
+				c.obFactMatch("refusal is strict >", in, `^lineLimitReader\.curLineLength > lineLimitReader\.LineLimit$`, "refusal not guarded by count > limit")
+			} else if isNilConst(r.Results[1]) && !reachableThroughLoop(f, in) {
+				c.obUnreach("uncounted return", in, `lineLimitReader.LineLimit != 0`)
+			}
+		})
+		R.Ob("(*lineLimitReader).Read/refuses in the loop and on entry", c.P.Pos(f.Pos()), nErr == 2, fmt.Sprintf("%d refusal sites", nErr))
+	}
 }
